@@ -145,10 +145,16 @@ func (c *Cluster) clientLoop(id int, untilNs int64) {
 			continue
 		}
 		var target *Node
+		leader := c.believedLeader()
 		if rng.Intn(1000) >= cfg.AnyNodePm {
-			target = c.believedLeader()
+			target = leader
 		}
 		if target == nil {
+			if leader == nil && rng.Intn(4) != 0 {
+				// Nobody leads: do not burn the operation budget on certain rejections.
+				simtime.Sleep(simtime.Duration(int64(cfg.HeartbeatMs) * 1_000_000))
+				continue
+			}
 			target = up[rng.Intn(len(up))]
 		}
 		typ := raft.Replicated
@@ -183,6 +189,24 @@ func (r *Recorder) onOpReturned(op *ClientOp) {
 			}
 		}
 		return
+	}
+	if op.Type == raft.LeaseBasedReadOnly && r.c.Cfg.DelayBoundMs > 0 && !r.c.Cfg.Membership {
+		// C17(b): a lease is only ever renewed when a heartbeat round is answered, and only
+		// voters count: a lease read served between invoke and return needs a reply from a
+		// voter delivered to the serving node later than (invoke - lease duration).
+		voters := 0
+		for range r.c.bootVoters {
+			voters++
+		}
+		if voters > 1 {
+			inc := op.Inc
+			leaseNs := int64(r.c.Cfg.LeaseMs) * 1_000_000
+			r.probe("lease-read-checked-against-voter-reply")
+			if inc.lastVoterReplyNs == 0 || inc.lastVoterReplyNs <= op.InvokeNs-leaseNs {
+				r.violate("C17", "lease-not-backed-by-voter", "no-recent-voter-reply", "op%d lease read served by %s between %.3fms and %.3fms, but the last AppendEntries reply from a voter reached it at %.3fms (lease duration %dms)",
+					op.ID, inc.Name(), float64(op.InvokeNs)/1e6, float64(op.ReturnNs)/1e6, float64(inc.lastVoterReplyNs)/1e6, r.c.Cfg.LeaseMs)
+			}
+		}
 	}
 	if !op.ResultOK {
 		r.violate("C03", "future-result", "bad-response-type", "op%d succeeded but the application response is not the state machine's result", op.ID)
@@ -247,8 +271,11 @@ func (r *Recorder) checkHistory() {
 			r.violate("C03", "applied-twice", "two-indices", "op%d was applied at indices %v", id, a.byOp[id])
 		}
 	}
-	// Known op ids only.
+	// Known op ids only (the API fuzzer submits payloads of its own).
 	for _, id := range ids {
+		if r.c.Cfg.ApiFuzz && (id == 0 || id >= 1<<40) {
+			continue
+		}
 		if id == 0 || id > uint64(len(r.Ops)) {
 			r.violate("C03", "phantom-op", "unknown-id", "an operation that no client submitted (id %d) was applied at %v", id, a.byOp[id])
 		} else if op := r.Ops[id-1]; op.Type != raft.Replicated {
